@@ -16,5 +16,6 @@ CONSTANTS
   PermuteLists = FALSE
   AtomicGossip = FALSE
   AtomicExec = FALSE
+  MaxDrop = 0
 INVARIANT AtEnd
 CHECK_DEADLOCK FALSE
